@@ -29,7 +29,7 @@ def gen_scenario(rng):
     for i in range(ncls):
         bases = []
         if i > 0:
-            k = rng.choice([1, 1, 1, 2, 2, 3])
+            k = rng.choice([1, 1, 1, 2, 2, 3, 3])
             bases = sorted(rng.sample(range(i), min(k, i)))
             # a consistent MRO: put more derived classes first
             bases.sort(reverse=True)
@@ -49,9 +49,16 @@ def gen_scenario(rng):
             defs.append({"id": ndefs, "code": 100 + ndefs, "isMethod": True, "prio": 0, "params": [{"name": 0, "kind": "pk", "req": True, "ty": ["cls", c]}], "body": body})
             own.append(ndefs)
             ndefs += 1
-        K.append({"bases": bases, "mixin": mixin and not bases, "defs": own, "extend": bool(own) and bool(bases) and rng.random() < 0.6,
+        is_mixin = mixin and not bases
+        # (@extend_super on a class without overloaded bases is legal: the decorated function stays the attribute, flag
+        # included, and a later class listing it as a second or third base merges it)
+        K.append({"bases": bases, "mixin": is_mixin, "defs": own, "extend": bool(own) and not is_mixin and rng.random() < (0.6 if bases else 0.35),
                   # @extend_super written on a later same-named definition of the body as well / instead
-                  "extend_later": [j for j in range(1, len(own)) if bases and rng.random() < 0.35]})
+                  # (only where no earlier class has a definition of the same signature: `__prepare__` registers the plain
+                  # functions of the bases on the merged function, where they shadow a *marked* definition of the same
+                  # signature — a marked definition is mixed in, not registered; the model has one marker per body)
+                  "extend_later": [j for j in range(1, len(own)) if bases and rng.random() < 0.35
+                                   and not any(defs[own[j]]["params"][0]["ty"] == d0["params"][0]["ty"] for d0 in defs[: own[0]])]})
     calls = []
     for _ in range(rng.randint(4, 14)):
         calls.append([rng.randrange(ncls), rng.randrange(len(args))])
